@@ -33,6 +33,23 @@ def check(run):
                     for serial in ("DEADBEEF", "17fd1e3c", "17FD1E3"):       # wrong / same up to case / prefix
                         scs.append(h.build((j, pos, "close"), reconnect_serial=serial))
                         kinds["serial:" + serial] = kinds.get("serial:" + serial, 0) + 1
+    # multi-fault sequences, faults inside reconnect handshakes included (thorough: many; quick: a few)
+    multi = 0
+    for h in histories(S, rng):
+        for _ in range(1500 if th else 6):
+            nf = rng.choice([2, 2, 3, 4])
+            faults = []
+            for _ in range(nf):
+                j = rng.randrange(len(h.exchanges))
+                e = h.exchanges[j]
+                faults.append((j, rng.randrange(0, len(e.replies) + 1), rng.choice(cc.History.FAULT_KINDS)))
+            faults.sort(key=lambda f: f[0])
+            hs = [((rng.randrange(2), rng.randrange(2), rng.choice(cc.History.FAULT_KINDS)) if rng.random() < 0.35 else None)
+                  for _ in range(nf + 3)]
+            hs = [(st, 0 if k == "nack" else p, k) if f is not None else None for f in hs for (st, p, k) in [f or (0, 0, "")]]
+            scs.append(h.build_multi(faults, hs))
+            multi += 1
+            kinds["multi"] = kinds.get("multi", 0) + 1
     cases, mo, io = run_scenarios(run, scs, "c09")
     diffs = judge(run, scs, cases, mo, io,
                   "after a failed exchange (close, garbage, NACK, silence, truncated packet) nothing more is written to that connection; the retry runs on a NEW "
